@@ -126,6 +126,8 @@ def classify_span(facts, b, spt):
             x = strip_ref(t[2][0])
             if is_call(x, 'index') and canon(b, x[2][0]) == ('role', 'SPANS'):
                 return x[2][1]
+            if isinstance(x, tuple) and len(x) == 3 and x[0] == 'index' and canon(b, x[1]) == ('role', 'SPANS'):
+                return x[2]         # the built-in indexing of a slice (`spans: &[Span]`), not Vec's Index impl
         return None
 
     def end_of_last(t):
